@@ -84,6 +84,7 @@ def load_all():
     from . import models_ws  # noqa: F401
     from . import models_h11  # noqa: F401
     from . import models_cli  # noqa: F401
+    from . import models_rt  # noqa: F401
 
 
 load_all()
